@@ -14,8 +14,8 @@ const STREAM_INT: u64 = 3;
 const REPS: [Rep; 8] = [
     Rep::None, Rep::Times(0), Rep::Times(1), Rep::Times(3), Rep::Times(1 << 24), Rep::Times(u32::MAX - 1), Rep::Times(u32::MAX), Rep::Infinite,
 ];
-const CYCLES: [f32; 8] = [f32::MIN_POSITIVE, 1e-30, 1e-3, 0.1, 1.0, 3.0, 1e30, f32::MAX];
-const DELAYS: [f32; 7] = [0.0, 1e-30, 0.5, 1.0, 1e30, f32::MAX, -0.25];
+const CYCLES: [f32; 11] = [1.0e-45, 1.0e-40, 2.0e-45, f32::MIN_POSITIVE, 1e-30, 1e-3, 0.1, 1.0, 3.0, 1e30, f32::MAX];
+const DELAYS: [f32; 9] = [0.0, 1.0e-45, 1.0e-40, 1e-30, 0.5, 1.0, 1e30, f32::MAX, -0.25];
 
 fn hostile_tl(r: &mut Rng, kinds: &[Kind], full_range_ints: bool) -> TlSpec {
     let cycle = *r.pick(&CYCLES);
@@ -301,7 +301,7 @@ pub fn log_only(run: &mut Run, path: &str) {
 }
 
 pub fn run(run: &mut Run) {
-    run.rule = "hostile alphabets: repeat in {None, Times 0/1/3/2^24/u32::MAX-1/u32::MAX, Infinite}, cycle in {MIN_POSITIVE, \
+    run.rule = "hostile alphabets: repeat in {None, Times 0/1/3/2^24/u32::MAX-1/u32::MAX, Infinite}, cycle in {smallest subnormal, 1e-40, MIN_POSITIVE, \
         1e-30 .. 1e30, f32::MAX}, delay in {0, 1e-30 .. 1e30, f32::MAX, -0.25}, keyframe positions incl. 0, 1, 1-ulp, \
         denormal, values up to +-1e37, integer properties spanning their full type range under all 29 easings, times at \
         0, every phase boundary +-1 ulp, 1e9, 1e30, f32::MAX; animator advances incl. 1e18, 1e19, 1e20, 1e30, f32::MAX \
